@@ -48,7 +48,12 @@ class Report:
 
     # -- declaring ----------------------------------------------------------
     def rule(self, rid, text):
-        self.rules[rid] = text
+        # a rule id can carry several statements (its own, and rules of neighbouring properties re-run under it)
+        cur = self.rules.get(rid)
+        if not cur:
+            self.rules[rid] = text
+        elif text not in cur:
+            self.rules[rid] = cur + ' || ' + text
 
     def ok(self, rule, fn, what, site=None, facts=None):
         rec = {'rule': rule, 'fn': fn, 'what': what, 'verdict': 'holds'}
